@@ -1179,3 +1179,46 @@ Lemma ex_normal_run :
   let '(st', evs, oc) := run_blocks (mkExc XNone 0 false) [ex_b1; ex_b2] 0 ex_st in
   Forall (fun e => ev_out e = OOk) evs /\ List.length evs = 4%nat /\ oc = OOk.
 Proof. vm_compute. split; [repeat constructor|split; reflexivity]. Qed.
+
+(* inplace=True: a regular module keeps, under every name, the very object it held (the content is what changes) *)
+Lemma std_slot_inplace n k x st :
+  let '(n', out, st') := set_tensor_dict n k x true st in
+  wf3 (slot3 n k) -> out <> None ->
+  slot3 n' k = slot3 n k /\ (forall k', k' <> k -> slot3 n' k' = slot3 n k') /\ m_custom n' = m_custom n /\ m_subs n' = m_subs n.
+Proof.
+  unfold set_tensor_dict, slot3, wf3.
+  destruct n as [cu ps bs ats subs]; node_cbn.
+  destruct (d_get ps k) as [[o|]|] eqn:Ep; node_cbn;
+    destruct (d_get bs k) as [[o2|]|] eqn:Eb; node_cbn; repeat (use_get; node_cbn);
+      destruct (d_get ats k) as [o3|] eqn:Ea; node_cbn; repeat (use_get; node_cbn);
+        try (intros []; fail); try (intros _ H; congruence);
+        try (destruct (fresh_clone st o) as [c st1]); try (destruct (fresh_clone st o2) as [c st1]);
+        try (destruct (fresh_clone st o3) as [c st1]);
+        intros Hw _; try rewrite Hw; try (apply negb_true_iff in Hw); node_cbn;
+        try (rewrite Hw; node_cbn);
+        (repeat split; intros; dsimp; reflexivity).
+Qed.
+
+(* D132: use_state_dict=True: after a normal exit the module holds re-wrapped Parameter objects *)
+Definition ex_b5 := mkBlock 0 None true false false (PTD [("w", PLeaf (Some (oT 11)))]).
+Lemma ex_D132 :
+  let '(st', evs, oc) := run_blocks (mkExc XNone 0 false) [ex_b5] 0 (mkSt ex_heap4 ex_vals FRESH_BASE) in
+  Forall (fun e => ev_out e = OOk) evs /\ ~ all_sloteq st' (mkSt ex_heap4 ex_vals FRESH_BASE)
+  /\ exists n', hg st' 0%Z = Some n'
+       /\ match d_get (m_params n') "w" with Some (Some o) => ostor o = 1%Z /\ okd o = KParam /\ oid o <> 1%Z | _ => False end.
+Proof.
+  vm_compute run_blocks. split; [repeat constructor|]. split.
+  - intros H. specialize (H 0%Z). vm_compute in H. destruct H as (_ & _ & H). specialize (H "w"). vm_compute in H. discriminate.
+  - eexists. split; [vm_compute; reflexivity|]. vm_compute. repeat split; discriminate.
+Qed.
+
+(* D133: a block entered with swap_dest=...: the exit raises TypeError and nothing is undone *)
+Definition ex_b6 := mkBlock 0 None false true false (PTD [("w", PLeaf (Some (oT 11)))]).
+Lemma ex_D133 :
+  let '(st', evs, oc) := run_blocks (mkExc XNone 0 false) [ex_b6] 0 (mkSt ex_heap4 ex_vals FRESH_BASE) in
+  oc = ORaise ETypeError /\ enters_ok evs /\ ~ all_sloteq st' (mkSt ex_heap4 ex_vals FRESH_BASE).
+Proof.
+  vm_compute run_blocks. split; [reflexivity|]. split.
+  - repeat constructor; cbn; congruence.
+  - intros H. specialize (H 0%Z). vm_compute in H. destruct H as (_ & _ & H). specialize (H "w"). vm_compute in H. discriminate.
+Qed.
